@@ -181,34 +181,64 @@ def run(ctx, anchors=None):
     pops_fail = hist_ops(stepper, "pop_back")
     pops_rw = hist_ops(rewind, "pop_back")
     pushed = {}
+    snap_point = {}
     for h, n in pushes:
         ctx.site()
-        srcf = efields(stepper, n["args"][0]) if n["args"] else []
+        arg = n["args"][0] if n["args"] else None
+        # unwrap std::move / copy construction
+        while arg is not None and ((arg.get("k") == "call" and arg.get("callee") in ("std::move", "std::forward")) or
+                                   (arg.get("k") == "ctor" and len(arg.get("args", [])) == 1)):
+            arg = arg["args"][0]
+        point = n
+        srcf = []
+        if arg is not None and arg.get("k") == "ref" and arg.get("dk") == "local" and arg["d"] not in astq.aliases(stepper).map:
+            # a snapshot local: its initialiser is the source, its declaration the snapshot point
+            for dn in stepper.nodes():
+                if dn["k"] == "decl":
+                    for d in dn["decls"]:
+                        if d["d"] == arg["d"] and d.get("init") is not None:
+                            init = d["init"]
+                            while init is not None and init.get("k") == "ctor" and len(init.get("args", [])) == 1:
+                                init = init["args"][0]
+                            srcf = efields(stepper, init)
+                            point = d["init"]
+        else:
+            srcf = efields(stepper, arg) if arg is not None else []
         pushed[h] = (srcf[0] if srcf else None, n)
+        snap_point[h] = point
     ctx.floor("R04.2", len(pushed), 1, "history vectors pushed by the stepper")
-    callpos = cfg.position(call)
-    for h, (src, n) in sorted(pushed.items()):
-        ctx.inst(cfg.dominates(n, call), "R04.2", "push-before-step:" + h, stepper.loc(n),
-                 "%s.push_back(%s) dominates the operation step" % (h, ".".join(src or ("?",))))
-    # failing edge of the step: which blocks are only reachable when the call returned false
-    # the call is the operand of '!' in the if-condition: find cond edges labelled with the call or its negation
+    # failing / succeeding edge of the step
     fail_succ = succ_succ = None
-    for (a, s, c, t) in cfg.cond_edges():
-        x = stepper.node_by_id(c)
-        truth = t
-        if x is call:
-            if truth:
-                succ_succ = s
+    for (a, s_, c, t) in cfg.cond_edges():
+        if stepper.node_by_id(c) is call:
+            if t:
+                succ_succ = s_
             else:
-                fail_succ = s
+                fail_succ = s_
     if fail_succ is None or succ_succ is None:
         raise AnalysisBroken("R04.2: the result of the operation step is not branched on in %s" % stepper.name)
+    before = {}
+    for h, (src, n) in sorted(pushed.items()):
+        pt = snap_point[h]
+        taken_before = cfg.dominates(pt, call)
+        src_written = src is not None and any(k[:len(src)] == src or src[:len(k)] == k for k in W)
+        ctx.inst(taken_before or not src_written, "R04.2", "snapshot-before-step:" + h, stepper.loc(pt),
+                 "the value recorded in %s (%s) is taken before the operation step" % (h, ".".join(src or ("?",))),
+                 "%s records '%s' as it is AFTER the step (the step writes it): a rewind restores the post-step value"
+                 % (h, ".".join(src or ("?",))))
+        before[h] = cfg.dominates(n, call)
+        if not before[h]:
+            # pushed after the step: must be pushed on every successful path, never on the failing one
+            okp = cfg.must_pass_from_block(succ_succ, [n]) and cfg.position(n)[0] not in cfg.reachable_from(fail_succ)
+            ctx.inst(okp, "R04.2", "push-on-every-success:" + h, stepper.loc(n),
+                     "%s is pushed on every successful path and on no failing path" % h)
     for h in sorted(pushed):
         ns = [n for (hh, n) in pops_fail if hh == h]
-        must = bool(ns) and cfg.must_pass_from_block(fail_succ, ns)
-        ctx.inst(must, "R04.2", "pop-on-failure:" + h, stepper.loc(ns[0]) if ns else stepper.loc(call),
-                 "every path from the failing edge of the step to the return pops %s" % h,
-                 "a failed step can return without popping %s (stale snapshot left on the history)" % h)
+        if before[h]:
+            must = bool(ns) and cfg.must_pass_from_block(fail_succ, ns)
+            ctx.inst(must, "R04.2", "pop-on-failure:" + h, stepper.loc(ns[0]) if ns else stepper.loc(call),
+                     "every path from the failing edge of the step to the return pops %s" % h,
+                     "a failed step can return without popping %s (stale snapshot left on the history)" % h)
         # and never popped on the success edge
         succ_reach = cfg.reachable_from(succ_succ)
         bad = [n for n in ns if cfg.position(n)[0] in succ_reach and cfg.position(n)[0] not in cfg.reachable_from(fail_succ)]
